@@ -111,6 +111,9 @@ type rig struct {
 	// the handler records statements only while this is set
 	recording bool
 	tag       int
+	// calibration statements whose rows did not reach the client although the backends saw
+	// exactly the expected tables (reported as violations by main)
+	calibrationViolations []calibViol
 }
 
 var (
@@ -194,6 +197,11 @@ func newRig() (*rig, error) {
 
 // calibrate checks the harness's routing assumption: a 1-row statement of every path is
 // delivered completely and the backends recorded exactly physTables[path].
+type calibViol struct {
+	path, class, detail string
+	got, want           int
+}
+
 func (g *rig) calibrate() {
 	g.mu.Lock()
 	g.recording = true
@@ -223,8 +231,14 @@ func (g *rig) calibrate() {
 			got = append(got, rec.table)
 		}
 		sort.Strings(got)
-		if o.class != "rows" || !sameSums(o.got, o.expected) || strings.Join(got, ",") != strings.Join(physTables[p], ",") {
+		if strings.Join(got, ",") != strings.Join(physTables[p], ",") {
 			ev.Fatalf("calibration of path %s failed: class=%s %s, backends saw tables %v, expected %v", p, o.class, o.detail, got, physTables[p])
+		}
+		if o.class != "rows" || !sameSums(o.got, o.expected) {
+			// the routing assumption holds (the backends saw exactly the expected tables) but
+			// the client did not get the rows they produced: that is the property, not the
+			// harness (seeded change c39-2 was reported as an engine error here before)
+			g.calibrationViolations = append(g.calibrationViolations, calibViol{path: p, class: o.class, detail: o.detail, got: len(o.got), want: len(o.expected)})
 		}
 	}
 }
@@ -674,6 +688,11 @@ func main() {
 	g, err := newRig()
 	if err != nil {
 		ev.Fatalf("rig: %v", err)
+	}
+	for _, cv := range g.calibrationViolations {
+		r.Violation(ev.Witness{Summary: fmt.Sprintf("1-row-per-table statement on path %s: backends produced %d row(s), client got class=%s %s (%d row(s))", cv.path, cv.want, cv.class, cv.detail, cv.got),
+			Features: map[string]string{"kind": "truncated", "path": cv.path, "size": "tiny", "stage": "calibration", "client": cv.class},
+			Case:     Case{}})
 	}
 	cases := universe(r.Thorough())
 	r.Set("universe", len(cases))
